@@ -115,7 +115,13 @@ class Engine(EngineBase):
             elif k == "update":
                 ops.append([k, t, h, {kk: gen_val(rng, kk) for kk in rng.sample(KEYS, 2)}])
             elif k in ("reset", "whole_assign"):
-                ops.append([k, t, h, gen_doc(rng)])
+                d = gen_doc(rng)
+                r2 = rng.random()
+                if r2 < 0.15:
+                    d["s"] = "L" * 90      # larger than the 64-byte buffer capacity
+                elif r2 < 0.22:
+                    d["s"] = "L" * 1500    # larger than the 1 KiB capacity
+                ops.append([k, t, h, d])
             elif k == "nested_set":
                 ops.append([k, t, h, rng.choice(["x", "y", "w"]), rng.choice([1, 2, 5, "s"])])
             elif k == "list_op":
